@@ -482,6 +482,40 @@ def opXmlCycle (j : Json) : R Json := do
     | none => Json.str "fail"
   pure (Json.mkObj [("elements", Json.arr outs.toArray)])
 
+open Edxml.Codec in
+/-- a whole `<ontology>` element through `cycleOnt`: the serialized tree (containers in the order
+`generate_xml` writes their definitions) -/
+def opXmlTree (j : Json) : R Json := do
+  let attrsOf (x : Json) : R Attrs := do (← arr x).mapM (pairOf str str)
+  let attrsJson (a : Attrs) : Json := Json.arr (a.map fun kv => jPair kv.1 kv.2).toArray
+  let ets ← (← fldArr j "eventTypes").mapM fun e => do
+    let parent : Option Attrs ← match e.getObjVal? "parent" with
+      | .ok Json.null => pure none
+      | .ok p => do pure (some (← attrsOf p))
+      | .error _ => pure none
+    let props ← (← fldArr e "props").mapM fun p => do
+      pure ({ attrs := ← attrsOf (← fld p "attrs"), concepts := ← (← fldArr p "concepts").mapM attrsOf } : PropX)
+    let rels ← (← fldArr e "rels").mapM fun r => do
+      pure ({ tag := ← fldStr r "tag", attrs := ← attrsOf (← fld r "attrs") } : RelX)
+    pure ({ attrs := ← attrsOf (← fld e "attrs"), parent := parent, props := props, rels := rels,
+            atts := ← (← fldArr e "atts").mapM attrsOf } : EtX)
+  let o : OntX := { objectTypes := ← (← fldArr j "objectTypes").mapM attrsOf, concepts := ← (← fldArr j "concepts").mapM attrsOf,
+                    eventTypes := ets, sources := ← (← fldArr j "sources").mapM attrsOf }
+  let ontJson (o : OntX) : Json := Json.mkObj [
+    ("objectTypes", Json.arr (o.objectTypes.map attrsJson).toArray),
+    ("concepts", Json.arr (o.concepts.map attrsJson).toArray),
+    ("eventTypes", Json.arr (o.eventTypes.map fun e => Json.mkObj [
+      ("attrs", attrsJson e.attrs),
+      ("parent", match e.parent with | some p => attrsJson p | none => Json.null),
+      ("props", Json.arr (e.props.map fun p => Json.mkObj [("attrs", attrsJson p.attrs),
+        ("concepts", Json.arr (p.concepts.map attrsJson).toArray)]).toArray),
+      ("rels", Json.arr (e.rels.map fun r => Json.mkObj [("tag", r.tag), ("attrs", attrsJson r.attrs)]).toArray),
+      ("atts", Json.arr (e.atts.map attrsJson).toArray)]).toArray),
+    ("sources", Json.arr (o.sources.map attrsJson).toArray)]
+  match cycleOnt o with
+  | some o1 => pure (Json.mkObj [("once", ontJson o1), ("twiceSame", Json.bool (cycleOnt o1 == some o1))])
+  | none => pure (Json.mkObj [("once", Json.str "fail")])
+
 def opXmlEsc (j : Json) : R Json := do
   let vals ← fldStrs j "values"
   let rows := vals.map fun v =>
@@ -726,6 +760,7 @@ def dispatch (j : Json) : R Json := do
   | "compat" => opCompat j
   | "evops" => opEvOps j
   | "xmlcycle" => opXmlCycle j
+  | "xmltree" => opXmlTree j
   | "xmlesc" => opXmlEsc j
   | "wstream" => opWStream j
   | "miner" => opMiner j
